@@ -1,4 +1,3 @@
-#[cfg(not(vls_verif))]
 pub mod chainpool;
 #[cfg(not(vls_verif))]
 pub mod chainutil;
@@ -15,6 +14,7 @@ pub mod props {
     pub mod c03;
     pub mod c04;
     pub mod c05;
+    pub mod c05chain;
     pub mod c06;
     pub mod c07;
     pub mod c08;
